@@ -1,20 +1,346 @@
 package main
 
-func init() {
-	runners["SEQ"] = func(tier string, seed uint64, out string) error {
-		n := 60
-		if tier == "thorough" {
-			n = 1500
-		}
-		return runHistories("SEQ", "HistChecks", "histcase", "all3_run", seed, n, func(r *rng, i int) seqOpts {
-			big := r.chance(1, 3)
-			bs := 256
-			if big {
-				bs = []int{32, 64}[r.intn(2)]
-			}
-			return seqOpts{bigMsgs: big, hostile: r.chance(1, 4), bufSize: bs, pause: r.chance(3, 4), max1: []int{0, 1, 2, 3, 8, -1}[r.intn(6)], max2: []int{0, 1, 2, 4, -1, 20000}[r.intn(6)],
-				clean: r.chance(1, 3), faultRate: []int{0, 30, 80}[r.intn(3)], storeFaults: []int{0, 0, 40}[r.intn(3)], lossRate: []int{0, 100, 300}[r.intn(3)],
-				steps: 10 + r.intn(30), adoptRate: []int{0, 3, 8}[r.intn(3)]}
-		}, out, 10)
+import (
+	"encoding/binary"
+	"fmt"
+)
+
+// Runners of the properties judged on sequential histories. Each: a corpus of
+// scripted scenarios (the witnesses of the repaired findings first), then seeded
+// random histories with a generator tuned to the property.
+
+type scripted struct {
+	label string
+	opts  seqOpts
+	run   func(h *hist)
+}
+
+func baseOpts() seqOpts {
+	return seqOpts{bufSize: 256, pause: true, max1: 8, max2: 8, steps: 8}
+}
+
+func brokerPublish(qos int, dup bool, id uint16, topic string, msg []byte) []byte {
+	head := byte(0x30 | qos<<1)
+	if dup {
+		head |= 8
 	}
+	body := append([]byte{byte(len(topic) >> 8), byte(len(topic))}, topic...)
+	if qos > 0 {
+		body = append(body, byte(id>>8), byte(id))
+	}
+	body = append(body, msg...)
+	pkt := []byte{head}
+	l := len(body)
+	for ; l > 0x7f; l >>= 7 {
+		pkt = append(pkt, byte(l|0x80))
+	}
+	pkt = append(pkt, byte(l))
+	return append(pkt, body...)
+}
+
+// quiet runs f without random faults.
+func (h *hist) quiet(f func()) {
+	old := h.sc.noFaults
+	h.sc.noFaults = true
+	f()
+	h.sc.noFaults = old
+}
+
+// readUntilErr calls ReadSlices until it returns an error (the scripted broker ran dry).
+func (h *hist) drain(max int) {
+	for i := 0; i < max; i++ {
+		n := h.stats["read:msg"] + h.stats["read:big"]
+		h.doRead()
+		if h.stats["read:msg"]+h.stats["read:big"] == n {
+			return
+		}
+	}
+}
+
+var corpus = []scripted{
+	{"F2: publishes, restart, publish, restart again", baseOpts(), func(h *hist) {
+		h.quiet(func() {
+			h.sc.opts.lossRate = 1000 // the broker keeps every acknowledgement back
+			h.pubP(1, false, []byte("A"), "t")
+			h.pubP(1, false, []byte("B"), "t")
+			h.pubP(2, false, []byte("C"), "t")
+			h.adopt()
+			h.pubP(1, false, []byte("D"), "t")
+			h.pubP(2, false, []byte("E"), "t")
+			h.adopt()
+			h.connectQuiet()
+			h.sc.opts.lossRate = 0
+			h.adopt()
+			h.connectQuiet()
+			h.drain(3)
+		})
+	}},
+	{"F3: retransmitted exactly-once PUBLISH after its PUBREC", baseOpts(), func(h *hist) {
+		h.quiet(func() {
+			h.sc.budgetIn = 0
+			h.sc.inject = [][]byte{brokerPublish(2, false, 9, "in/x", []byte("m1"))}
+			h.doRead() // connects, returns the message
+			h.sc.inject = [][]byte{brokerPublish(2, true, 9, "in/x", []byte("m1")), brokerPublish(0, false, 0, "in/y", []byte("m2"))}
+			h.doRead() // PUBREC, then the duplicate, then m2
+			h.sc.inject = [][]byte{ack4(0x62, 9), brokerPublish(0, false, 0, "in/z", []byte("m3"))}
+			h.doRead()
+			h.doRead()
+		})
+	}},
+	{"F4: another goroutine's write fails while the read routine owes an acknowledgement", baseOpts(), func(h *hist) {
+		h.quiet(func() {
+			h.sc.budgetIn = 0
+			h.sc.inject = [][]byte{brokerPublish(1, false, 7, "in/x", []byte("m1"))}
+			h.doRead()
+			h.sc.wscript = []writeAns{{wHard, 2}}
+			h.publish(false, []byte("p"), "t")
+			h.sc.inject = [][]byte{brokerPublish(0, false, 0, "in/y", []byte("m2"))}
+			h.doRead()
+			h.doRead()
+		})
+	}},
+	{"F11: restart with only PUBRELs pending", baseOpts(), func(h *hist) {
+		h.quiet(func() {
+			h.sc.budgetIn = 0
+			h.connectQuiet()
+			h.sc.opts.lossRate = 0
+			h.pubP(2, false, []byte("A"), "t")
+			h.sc.opts.lossRate = 1000 // PUBCOMP is withheld
+			h.sc.inject = nil
+			h.doRead() // PUBREC arrives, PUBREL goes out, then the connection ends
+			h.adopt()
+			h.sc.opts.lossRate = 0
+			h.connectQuiet()
+			h.pubP(2, false, []byte("B"), "t")
+			h.drain(3)
+		})
+	}},
+	{"F13: adoption with negative limits", func() seqOpts { o := baseOpts(); o.max1, o.max2 = -1, -1; return o }(), func(h *hist) {
+		h.quiet(func() {
+			h.pubP(1, false, []byte("A"), "t")
+			h.adopt()
+			h.connectQuiet()
+		})
+	}},
+	{"F16: persisted publish right after Close", baseOpts(), func(h *hist) {
+		h.quiet(func() {
+			h.connectQuiet()
+			h.close()
+			h.pubP(1, false, []byte("A"), "t")
+			h.pubP(2, false, []byte("B"), "t")
+			h.doRead()
+			h.pubP(1, false, []byte("C"), "t")
+		})
+	}},
+	{"F8: five byte remaining length", baseOpts(), func(h *hist) {
+		h.quiet(func() {
+			h.sc.budgetIn = 0
+			h.connectQuiet()
+			body := make([]byte, 5)
+			binary.BigEndian.PutUint16(body, 1)
+			body[2] = 'x'
+			h.sc.inject = [][]byte{append([]byte{0x30, 0x85, 0x80, 0x80, 0x80, 0x00}, body...)}
+			h.doRead()
+			h.doRead()
+		})
+	}},
+	{"F9a: SUBACK with a wrong number of return codes", baseOpts(), func(h *hist) {
+		h.quiet(func() {
+			h.sc.budgetIn = 0
+			h.connectQuiet()
+			h.sc.opts.lossRate = 1000
+			h.subscribe(1, []string{"a/b"})
+			h.sc.inject = [][]byte{{0x90, 4, 0x60, 0x00, 0, 0}}
+			h.doRead()
+			h.doRead()
+		})
+	}},
+	{"F9b: DISCONNECT write fails", baseOpts(), func(h *hist) {
+		h.quiet(func() {
+			h.connectQuiet()
+			h.sc.wscript = []writeAns{{wHard, 1}}
+			h.disconnect()
+			h.doRead()
+		})
+	}},
+	{"big message pending at Close", func() seqOpts { o := baseOpts(); o.bufSize = 32; return o }(), func(h *hist) {
+		h.quiet(func() {
+			h.sc.budgetIn = 0
+			h.sc.inject = [][]byte{brokerPublish(1, false, 3, "in/big", make([]byte, 70))}
+			h.doRead()
+			h.close()
+			h.doRead()
+			h.doRead()
+		})
+	}},
+}
+
+// damage scenarios for C16: restart on a Persistence that was tampered with.
+func damageCorpus() []scripted {
+	type dmg struct {
+		label string
+		f     func(m map[uint][]byte)
+	}
+	flip := func(k uint, i int) func(m map[uint][]byte) {
+		return func(m map[uint][]byte) {
+			if v, ok := m[k]; ok && len(v) > 0 {
+				v = append([]byte(nil), v...)
+				v[(i%len(v)+len(v))%len(v)] ^= 0x5a
+				m[k] = v
+			}
+		}
+	}
+	trunc := func(k uint, n int) func(m map[uint][]byte) {
+		return func(m map[uint][]byte) {
+			if v, ok := m[k]; ok && len(v) > n {
+				m[k] = append([]byte(nil), v[:n]...)
+			}
+		}
+	}
+	del := func(k uint) func(m map[uint][]byte) { return func(m map[uint][]byte) { delete(m, k) } }
+	ds := []dmg{
+		{"F10: second exactly-once PUBLISH damaged after the first got its PUBREC", flip(0xc001, 3)},
+		{"F10: second exactly-once PUBLISH removed", del(0xc001)},
+		{"first at-least-once PUBLISH damaged", flip(0x8000, 1)},
+		{"middle at-least-once PUBLISH removed", del(0x8001)},
+		{"last at-least-once PUBLISH truncated", trunc(0x8002, 9)},
+		{"PUBREL damaged", flip(0xc000, -2)},
+		{"PUBREL removed", del(0xc000)},
+		{"F14: reception marker damaged", flip(0x10009, 2)},
+		{"reception marker removed", del(0x10009)},
+		{"stray entries", func(m map[uint][]byte) {
+			m[0x1234] = []byte("garbage")
+			m[0x9fff] = []byte("x")
+			m[0x1ffff] = []byte{}
+		}},
+		{"leftover of an interrupted save: empty value", func(m map[uint][]byte) { m[0x8003] = []byte{} }},
+		{"F15: client identifier record damaged", flip(0, 0)},
+		{"F15: client identifier record removed", del(0)},
+		{"two records damaged", func(m map[uint][]byte) { flip(0x8001, 0)(m); flip(0xc002, 5)(m) }},
+	}
+	var out []scripted
+	for _, d := range ds {
+		d := d
+		out = append(out, scripted{"damage: " + d.label, baseOpts(), func(h *hist) {
+			h.quiet(func() {
+				h.sc.budgetIn = 0
+				// a session with transfers at every stage and a reception marker
+				h.sc.inject = [][]byte{brokerPublish(2, false, 9, "in/x", []byte("m1")), brokerPublish(0, false, 0, "in/y", []byte("m2"))}
+				h.doRead()
+				h.sc.opts.lossRate = 1000
+				h.doRead() // marker saved, PUBREC written
+				h.pubP(1, false, []byte("A"), "t")
+				h.pubP(1, false, []byte("B"), "t")
+				h.pubP(1, false, []byte("C"), "t")
+				h.sc.opts.lossRate = 0
+				h.pubP(2, false, []byte("D"), "t")
+				h.sc.opts.lossRate = 1000
+				h.doRead() // PUBREC for D: PUBREL recorded
+				h.pubP(2, false, []byte("E"), "t")
+				h.pubP(2, false, []byte("F"), "t")
+				h.pubP(2, false, []byte("G"), "t")
+				h.rewrite(d.f)
+				h.adopt()
+				h.sc.opts.lossRate = 0
+				h.sc.inject = [][]byte{brokerPublish(2, true, 9, "in/x", []byte("m1")), brokerPublish(0, false, 0, "in/z", []byte("m3"))}
+				h.drain(4)
+				h.pubP(1, false, []byte("H"), "t")
+				h.pubP(2, false, []byte("I"), "t")
+				h.drain(4)
+				h.adopt()
+				h.drain(3)
+			})
+		}})
+	}
+	return out
+}
+
+func scriptedGen(s scripted) histGen {
+	return func(i int, r *rng, stats map[string]int) (string, bool, map[string]any) {
+		o := s.opts
+		return runScripted(r, o, stats, func(h *hist) {
+			h.label = s.label
+			h.nontriv = true
+			s.run(h)
+		})
+	}
+}
+
+func histRunner(prop, runFn string, withDamage bool, nquick, nthorough int, mk func(r *rng, i int) seqOpts) runner {
+	return func(tier string, seed uint64, out string) error {
+		var gens []histGen
+		for _, s := range corpus {
+			gens = append(gens, scriptedGen(s))
+		}
+		if withDamage {
+			for _, s := range damageCorpus() {
+				gens = append(gens, scriptedGen(s))
+			}
+		}
+		n := nquick
+		if tier == "thorough" {
+			n = nthorough
+		}
+		for i := 0; i < n; i++ {
+			gens = append(gens, randomGen(mk))
+		}
+		return runGen(prop, "HistChecks", runFn, seed, len(gens), func(i int, r *rng, stats map[string]int) (string, bool, map[string]any) {
+			return gens[i](i, r, stats)
+		}, out, 8)
+	}
+}
+
+func pick(r *rng, xs ...int) int { return xs[r.intn(len(xs))] }
+
+func init() {
+	general := func(r *rng, i int) seqOpts {
+		big := r.chance(1, 3)
+		bs := 256
+		if big {
+			bs = pick(r, 32, 64)
+		}
+		return seqOpts{bigMsgs: big, hostile: r.chance(1, 4), bufSize: bs, pause: r.chance(3, 4),
+			max1: pick(r, 0, 1, 2, 3, 8, -1), max2: pick(r, 0, 1, 2, 4, -1, 20000),
+			clean: r.chance(1, 3), faultRate: pick(r, 0, 30, 80), storeFaults: pick(r, 0, 0, 40), lossRate: pick(r, 0, 100, 300),
+			steps: 10 + r.intn(30), adoptRate: pick(r, 0, 3, 8)}
+	}
+	outbound := func(r *rng, i int) seqOpts {
+		return seqOpts{bufSize: 256, pause: r.chance(3, 4), max1: pick(r, 1, 2, 3, 8, 16), max2: pick(r, 1, 2, 4, 16),
+			clean: r.chance(1, 4), faultRate: pick(r, 0, 40, 120), storeFaults: pick(r, 0, 30, 80), lossRate: pick(r, 0, 150, 400),
+			steps: 20 + r.intn(30), adoptRate: pick(r, 0, 4, 10)}
+	}
+	inbound := func(r *rng, i int) seqOpts {
+		big := r.chance(1, 2)
+		bs := 256
+		if big {
+			bs = pick(r, 32, 64)
+		}
+		return seqOpts{bigMsgs: big, bufSize: bs, pause: r.chance(3, 4), max1: 4, max2: 4,
+			faultRate: pick(r, 0, 40, 100), storeFaults: pick(r, 0, 30), lossRate: pick(r, 0, 200),
+			steps: 20 + r.intn(30), adoptRate: pick(r, 0, 5)}
+	}
+	hostile := func(r *rng, i int) seqOpts {
+		o := general(r, i)
+		o.hostile = true
+		return o
+	}
+	limits := func(r *rng, i int) seqOpts {
+		o := outbound(r, i)
+		o.max1, o.max2 = pick(r, 0, 1, 2, 3, -1, 20000), pick(r, 0, 1, 2, 3, -1, 16384)
+		o.storeFaults = 0
+		return o
+	}
+	runners["SEQ"] = histRunner("SEQ", "all3_run", true, 60, 1500, general)
+	runners["C01"] = histRunner("C01", "c01_run", false, 250, 3000, outbound)
+	runners["C02"] = histRunner("C02", "c02_run", false, 250, 3000, func(r *rng, i int) seqOpts { o := outbound(r, i); o.adoptRate = pick(r, 6, 12); return o })
+	runners["C03"] = histRunner("C03", "c03_run", false, 250, 3000, func(r *rng, i int) seqOpts { o := outbound(r, i); o.max1 = 0; return o })
+	runners["C04"] = histRunner("C04", "c04_run", false, 250, 3000, inbound)
+	runners["C05"] = histRunner("C05", "c05_run", false, 250, 3000, outbound)
+	runners["C07"] = histRunner("C07", "c07_run", false, 250, 3000, inbound)
+	runners["C13"] = histRunner("C13", "c13_run", false, 250, 3000, hostile)
+	runners["C14"] = histRunner("C14", "c14_run", false, 250, 3000, general)
+	runners["C16"] = histRunner("C16", "c16_run", true, 200, 2000, general)
+	runners["C17"] = histRunner("C17", "c17_run", false, 250, 3000, limits)
+	runners["C18"] = histRunner("C18", "c18_run", false, 250, 3000, general)
+	_ = fmt.Sprint
 }
